@@ -388,11 +388,58 @@ theorem fixOrder_head_max (ε : K) (es : List (EigInfo K)) (i₀ : ℕ) (rest : 
       rw [hp2]; congr 1
     rw [← this]; exact hkey
 
-/-- **fixed point in the closed ball**: if `eig` returned at least one eigenvector in the closed
-ball (Minkowski norm `≤ ε`), the first reported point is in the closed ball -/
+/-- `sort_eigvals=False`: the first reported eigenvector has the largest `in_plane` flag; original: the first reported eigenvector has the largest key `(in ball, -|Im λ|, |λ|)`: (unsorted option) -/
+theorem fixOrderPlain_head_max (ε : K) (es : List (EigInfo K)) (i₀ : ℕ) (rest : List ℕ)
+    (h : fixOrderPlain ε es = i₀ :: rest) (hi₀ : i₀ < es.length) :
+    ∀ i, (hi : i < es.length) → (es[i]).inPlane ε ≤ (es[i₀]).inPlane ε := by
+  unfold fixOrderPlain at h
+  set srt := ((List.range es.length).zip es).mergeSort (fun a b => decide (a.2.inPlane ε ≤ b.2.inPlane ε)) with hsrt
+  have hsorted : srt.Pairwise (fun a b => decide (a.2.inPlane ε ≤ b.2.inPlane ε) = true) :=
+    List.pairwise_mergeSort (le := fun (a b : ℕ × EigInfo K) => decide (a.2.inPlane ε ≤ b.2.inPlane ε))
+      (fun a b c hab hbc => by simp at *; exact le_trans hab hbc) (fun a b => by simp; exact le_total _ _) _
+  have hperm : srt.Perm ((List.range es.length).zip es) := List.mergeSort_perm _ _
+  have hrev : srt.reverse.Pairwise (fun a b => decide (b.2.inPlane ε ≤ a.2.inPlane ε) = true) :=
+    List.pairwise_reverse.2 hsorted
+  -- every element of the zipped list is (i, es[i])
+  have hmem : ∀ p ∈ srt, ∃ (hp : p.1 < es.length), p.2 = es[p.1] := by
+    intro p hp
+    have := (hperm.mem_iff).1 hp
+    rw [List.mem_iff_getElem] at this
+    obtain ⟨k, hk, rfl⟩ := this
+    simp at hk
+    simp [hk]
+  cases hr : srt.reverse with
+  | nil => rw [hr] at h; simp at h
+  | cons p ps =>
+    rw [hr] at h hrev
+    simp only [List.map_cons, List.cons.injEq] at h
+    obtain ⟨hp1, _⟩ := h
+    have hpmem : p ∈ srt := by
+      have : p ∈ srt.reverse := by rw [hr]; simp
+      simpa using this
+    obtain ⟨hplt, hp2⟩ := hmem p hpmem
+    intro i hi
+    -- (i, es[i]) is in srt, hence in srt.reverse = p :: ps
+    have him : (i, es[i]) ∈ srt := by
+      apply (hperm.mem_iff).2
+      rw [List.mem_iff_getElem]
+      exact ⟨i, by simp [hi], by simp⟩
+    have him' : (i, es[i]) ∈ p :: ps := by rw [← hr]; simpa using him
+    have hkey : (es[i]).inPlane ε ≤ p.2.inPlane ε := by
+      rcases List.mem_cons.1 him' with heq | hin
+      · rw [← heq]
+      · simpa using (List.pairwise_cons.1 hrev).1 _ hin
+    have : p.2 = es[i₀] := by
+      rw [hp2]; congr 1
+    rw [← this]; exact hkey
+
+/-- **fixed point in the closed ball**: if `eig` (after the refinement) returned at least one
+real eigenvector in the closed ball (Minkowski norm `≤ ε`, eigenvalue with `|Im λ| ≤ ε`), the first
+reported point is a real eigenvector in the closed ball — with sorting by modulus or without -/
 theorem fixedPoint_in_ball (ε : K) (es : List (EigInfo K)) (i₀ : ℕ) (rest : List ℕ)
     (h : fixOrder ε es = i₀ :: rest) (hi₀ : i₀ < es.length)
-    (i : ℕ) (hi : i < es.length) (hball : es[i].norm ≤ ε) : es[i₀].norm ≤ ε := by
+    (i : ℕ) (hi : i < es.length) (hball : es[i].norm ≤ ε) (him : es[i].absIm ≤ ε) :
+    es[i₀].norm ≤ ε ∧ es[i₀].absIm ≤ ε := by
   have := fixOrder_head_max ε es i₀ rest h hi₀ i hi
   unfold keyLe EigInfo.key at this
   simp only [decide_eq_true_eq] at this
@@ -401,9 +448,12 @@ theorem fixedPoint_in_ball (ε : K) (es : List (EigInfo K)) (i₀ : ℕ) (rest :
     · exact le_of_lt hlt
     · exact le_of_eq heq
   unfold EigInfo.inPlane at h1
-  rw [if_neg (not_lt.2 hball)] at h1
+  rw [if_neg (by rintro (h | h) <;> [exact absurd hball (not_le.2 h); exact absurd him (not_le.2 h)])] at h1
   by_contra hcon
-  rw [if_pos (not_le.1 hcon)] at h1
+  rw [if_pos (by
+    by_contra hn
+    push_neg at hn
+    exact hcon ⟨hn.1, hn.2⟩)] at h1
   omega
 
 /-- **attracting first**: among eigenvectors in the closed ball with real eigenvalue the first
@@ -412,14 +462,16 @@ eigenvectors, all other eigenvectors spacelike) this is the attracting endpoint 
 theorem attracting_first (ε : K) (es : List (EigInfo K)) (i₀ : ℕ) (rest : List ℕ)
     (h : fixOrder ε es = i₀ :: rest) (hi₀ : i₀ < es.length)
     (i : ℕ) (hi : i < es.length) (hball : es[i].norm ≤ ε) (hreal : es[i].absIm = 0)
-    (hnn : ∀ j, (hj : j < es.length) → 0 ≤ es[j].absIm) :
+    (hnn : ∀ j, (hj : j < es.length) → 0 ≤ es[j].absIm) (hε : 0 ≤ ε) :
     es[i₀].norm ≤ ε ∧ es[i₀].absIm = 0 ∧ es[i].absVal ≤ es[i₀].absVal := by
-  have hb := fixedPoint_in_ball ε es i₀ rest h hi₀ i hi hball
+  obtain ⟨hb, hbi⟩ := fixedPoint_in_ball ε es i₀ rest h hi₀ i hi hball (by rw [hreal]; exact hε)
   have := fixOrder_head_max ε es i₀ rest h hi₀ i hi
   unfold keyLe EigInfo.key at this
   simp only [decide_eq_true_eq] at this
   have hin : (es[i]).inPlane ε = (es[i₀]).inPlane ε := by
-    unfold EigInfo.inPlane; rw [if_neg (not_lt.2 hball), if_neg (not_lt.2 hb)]
+    unfold EigInfo.inPlane
+    rw [if_neg (by rintro (h | h) <;> [exact absurd hball (not_le.2 h); (rw [hreal] at h; exact absurd hε (not_le.2 h))]),
+      if_neg (by rintro (h | h) <;> [exact absurd hb (not_le.2 h); exact absurd hbi (not_le.2 h)])]
   rcases Prod.Lex.toLex_le_toLex.1 this with hlt | ⟨_, h2⟩
   · simp only at hlt; omega
   · simp only at h2
@@ -435,6 +487,52 @@ theorem attracting_first (ε : K) (es : List (EigInfo K)) (i₀ : ℕ) (rest : L
       rw [this, ← heq]; ring
 
 end ordered
+
+/-! ## the refinement of the fixed vectors (repaired `_fixpoint_data`) -/
+
+section refine
+variable {K : Type*} [Field K] [LinearOrder K] [IsStrictOrderedRing K] {n : ℕ}
+
+theorem mink_sum_left {k : ℕ} (c : Fin k → K) (b : Fin k → Fin (n + 1) → K) (y : Fin (n + 1) → K) :
+    mink (fun l => ∑ i, c i * b i l) y = ∑ i, c i * mink (b i) y := by
+  simp only [mink_eq_sum, Finset.sum_mul, Finset.mul_sum]
+  rw [Finset.sum_comm]
+  exact Finset.sum_congr rfl fun i _ => Finset.sum_congr rfl fun l _ => by ring
+
+/-- `_refine_fixed_vectors` replaces `eig`'s basis of the fixed vectors by `b = fixed @ coeffs`:
+a basis of `ker(M − I)` (`utils.kernel`, contract) that is orthogonal for the Minkowski form
+(`eigh` of the restricted form, contract).  If the isometry fixes *any* non-zero vector of the
+closed light cone — every elliptic and parabolic isometry does — one of the basis vectors lies
+in the closed light cone; by `fixedPoint_in_ball` the first reported point is then in the
+closed ball, and it is fixed because every `b i` is.  This is the clause "every point reported
+as a fixed point is fixed by it and lies in the closed ball" for isometries whose fixed vectors
+form a space of any dimension. -/
+theorem refined_basis_in_ball {k : ℕ} (b : Fin k → Fin (n + 1) → K)
+    (horth : ∀ i j, i ≠ j → mink (b i) (b j) = 0) (c : Fin k → K)
+    (hx : mink (fun l => ∑ i, c i * b i l) (fun l => ∑ i, c i * b i l) ≤ 0)
+    (hc : ∃ i, c i ≠ 0) :
+    ∃ i, mink (b i) (b i) ≤ 0 := by
+  by_contra hpos
+  rw [not_exists] at hpos
+  have hpos : ∀ i, 0 < mink (b i) (b i) := fun i => not_le.1 (hpos i)
+  have hexp : mink (fun l => ∑ i, c i * b i l) (fun l => ∑ i, c i * b i l)
+      = ∑ i, c i ^ 2 * mink (b i) (b i) := by
+    rw [mink_sum_left]
+    apply Finset.sum_congr rfl
+    intro i _
+    rw [mink_comm, mink_sum_left, Finset.mul_sum]
+    rw [Finset.sum_eq_single i]
+    · rw [mink_comm]; ring
+    · intro j _ hji; rw [horth j i hji]; ring
+    · intro h; exact absurd (Finset.mem_univ i) h
+  rw [hexp] at hx
+  obtain ⟨i, hi0⟩ := hc
+  have hterm : 0 < c i ^ 2 * mink (b i) (b i) := mul_pos (by positivity) (hpos i)
+  have hsum : 0 < ∑ j, c j ^ 2 * mink (b j) (b j) :=
+    Finset.sum_pos' (fun j _ => mul_nonneg (sq_nonneg _) (hpos j).le) ⟨i, Finset.mem_univ i, hterm⟩
+  linarith
+
+end refine
 
 /-! ## non-vacuity -/
 
